@@ -1649,10 +1649,22 @@ class Context:
             if not isinstance(arg, JSObject):
                 # Any other primitive is a length (ToIndex)
                 return array_class(_alloc_length(arg, "typed array"))
-            return array_class(0)
+            # new Int32Array(arrayLike): the indexed properties up to its length
+            vm = self._current_vm
+            read = (lambda k: vm._get_property(arg, k)) if vm is not None else arg.get
+            length = self._js_to_number(read("length"))
+            length = _alloc_length(length, "typed array") if length == length and length > 0 else 0
+            result = array_class(length)
+            for i in range(length):
+                value = read(str(i))
+                if isinstance(value, JSObject):
+                    value = self._js_to_number(value)
+                result.set_index(i, value)
+            return result
 
         constructor = JSCallableObject(constructor_fn)
         constructor._name = name
+        constructor.set("BYTES_PER_ELEMENT", array_class._element_size)
         return constructor
 
     def _create_arraybuffer_constructor(self) -> JSCallableObject:
